@@ -17,8 +17,15 @@ HARNESS = os.path.join(VERIF, "harness")
 BUILD = os.path.join(VERIF, ".build")
 EVID = os.path.join(VERIF, "evidence")
 REPLAYS = os.path.join(EVID, "replays")
-DRIVER = os.path.join(LEAN, ".lake", "build", "bin", "mtv-driver")
-VH = os.path.join(BUILD, "vh")
+
+
+def driver_path(prop):
+    return os.path.join(LEAN, ".lake", "build", "bin", "drv-" + prop.lower())
+
+
+def vh_path(prop):
+    return os.path.join(BUILD, "vh-" + prop.lower())
+
 
 ALLOWED_AXIOMS = {"propext", "Classical.choice", "Quot.sound"}
 FORBIDDEN = re.compile(r"\b(sorry|admit|native_decide|bv_decide|implemented_by|unsafe)\b|^\s*axiom\s|maxHeartbeats\s+0\b")
@@ -82,19 +89,26 @@ class Ctx:
         self.findings = load_findings(prop)
 
     # ---- building ------------------------------------------------------------------------------
-    def build_harness(self):
-        """go build -tags verif of the harness against the repo's current working tree."""
-        with Lock("go"):
+    def build_harness(self, extra_files=()):
+        """go build -tags verif of this property's harness (framework files, shared x_*.go files,
+        the property's own cXX*.go files) against the repo's current working tree."""
+        import glob
+        sub = self.prop.lower()
+        d = os.path.join(HARNESS, "cmd", "vh")
+        files = ["main.go", "util.go"] + sorted(os.path.basename(f) for f in glob.glob(os.path.join(d, "x_*.go"))) \
+            + sorted(os.path.basename(f) for f in glob.glob(os.path.join(d, sub + "*.go"))) + list(extra_files)
+        files = [os.path.join("cmd", "vh", f) for f in dict.fromkeys(files)]
+        with Lock("go-" + sub):
             env = go_env(self.repo)
-            args = ["go", "build", "-tags", "verif", "-o", VH]
+            args = ["go", "build", "-tags", "verif", "-o", vh_path(self.prop)]
             if os.path.realpath(self.repo) != "/repo":
                 mf = os.path.join(self.work, "go.mod")
                 txt = open(os.path.join(HARNESS, "go.mod")).read().replace("=> /repo", "=> " + self.repo)
                 open(mf, "w").write(txt)
                 shutil.copy(os.path.join(HARNESS, "go.sum"), os.path.join(self.work, "go.sum"))
                 args += ["-modfile", mf]
-            args += ["./cmd/vh"]
-            rc, out = run(args, cwd=HARNESS, env=env, timeout=600)
+            args += files
+            rc, out = run(args, cwd=HARNESS, env=env, timeout=900)
         if rc != 0:
             self.obligation("go build -tags verif (harness + /repo working tree)", False, out[-3000:])
             return False
@@ -108,13 +122,13 @@ class Ctx:
     def lean_check(self, modules, theorems, extra_modules=()):
         """Build the property modules and the driver; audit every property theorem's axioms."""
         t = time.time()
-        rc, out = self.lake(list(modules) + list(extra_modules) + ["mtv-driver"])
+        rc, out = self.lake(list(modules) + list(extra_modules) + ["drv-" + self.prop.lower()])
         if rc != 0:
             # find which theorem/file failed
             errs = [l for l in out.splitlines() if "error" in l][:12]
             self.obligation("lake build " + " ".join(modules), False, "\n".join(errs))
             return False
-        self.obligation("lake build " + " ".join(modules) + " mtv-driver", True, "")
+        self.obligation("lake build " + " ".join(modules) + " drv-" + self.prop.lower(), True, "")
         # forbidden constructs in all proof/model sources
         bad = grep_forbidden()
         self.obligation("no sorry/admit/axiom/native_decide/bv_decide/implemented_by/unsafe in lean sources",
@@ -159,12 +173,12 @@ class Ctx:
         os.makedirs(d, exist_ok=True)
         env = dict(os.environ)
         env.setdefault("GOMEMLIMIT", "6GiB")
-        rc, out = run([VH, sub, "-dir", d] + extra_args, cwd=self.work, env=env, timeout=timeout)
+        rc, out = run([vh_path(self.prop), sub, "-dir", d] + extra_args, cwd=self.work, env=env, timeout=timeout)
         return rc, out
 
     def driver(self, d, timeout=3000):
         with open(os.path.join(d, "ops.txt")) as fin, open(os.path.join(d, "lean.out"), "w") as fout:
-            p = subprocess.run([DRIVER], stdin=fin, stdout=fout, stderr=subprocess.PIPE, timeout=timeout)
+            p = subprocess.run([driver_path(self.prop)], stdin=fin, stdout=fout, stderr=subprocess.PIPE, timeout=timeout)
         return p.returncode, p.stderr.decode(errors="replace")
 
     def correspond(self, sub, ops_file=None, label="gen", seed=None, tier=None):
@@ -345,14 +359,18 @@ def load_findings(prop):
     if not os.path.exists(p):
         return []
     data = json.load(open(p))
-    return [f for f in data.get("findings", []) if f.get("property") == prop]
+    out = [f for f in data.get("findings", []) if f.get("property") == prop]
+    frag = os.path.join(VERIF, "known_findings.d", prop + ".json")
+    if os.path.exists(frag):
+        out += [f for f in json.load(open(frag)).get("findings", []) if f.get("property") == prop]
+    return out
 
 
 def generic_check(ctx, sub, modules, theorems, rule, search_seeds=(101, 202, 303), extra_trusted=(),
-                  gen_hook=None, extra_modules=()):
+                  gen_hook=None, extra_modules=(), extra_files=()):
     """The standard pipeline: build harness; (regenerate); build+audit Lean; corpus; correspondence;
     violation protocol; evidence."""
-    if not ctx.build_harness():
+    if not ctx.build_harness(extra_files):
         ctx.report_unexplained("go build of the harness against the working tree", ctx.obligations[-1][2][-800:])
         return ctx.finish(rule=rule, extra_trusted=extra_trusted)
     if gen_hook is not None:
@@ -361,7 +379,7 @@ def generic_check(ctx, sub, modules, theorems, rule, search_seeds=(101, 202, 303
     broken = []
     if not proofs_ok:
         broken = [o for o in ctx.obligations if not o[1]]
-    have_driver = os.path.exists(DRIVER)
+    have_driver = os.path.exists(driver_path(ctx.prop))
     all_mism = []
     runs = []
     corpus = os.path.join(VERIF, "corpus", sub + ".ops")
@@ -410,7 +428,7 @@ def replay(ctx, sub, path):
     if not ctx.build_harness():
         print("build failed")
         return 1
-    ctx.lake(["mtv-driver"])
+    ctx.lake(["drv-" + ctx.prop.lower()])
     if rep.get("kind") == "no-failing-input-found":
         print("replay names an unchecked obligation, not an input:", rep.get("unchecked"))
         print(json.dumps(rep.get("detail"))[:1500])
